@@ -48,12 +48,13 @@ def boxcar_filter(time_series, lb=0, ub=0.5, n_iterations=2):
     #If the time_series is a 1-d, we add a dimension, so that we can iterate
     #over 2-d inputs:
     one_d = len(time_series.shape) == 1
+    # the rows are overwritten below with filtered (non-integer) values: work
+    # on a floating point copy, not on the caller's array nor in its dtype
+    dt = np.result_type(time_series.dtype, np.float64)
     if one_d:
-        time_series = np.array([time_series])
+        time_series = np.array([time_series], dtype=dt)
     else:
-        # the rows are overwritten below: work on a copy, not on the caller's
-        # array
-        time_series = np.array(time_series)
+        time_series = np.array(time_series, dtype=dt)
     for i in range(time_series.shape[0]):
         if ub:
             # Start by applying a low-pass to the signal.  Pad the signal on
